@@ -137,6 +137,9 @@ def eff(cfg):
     approved = flags & set(CATS)
     if "review" in flags:
         approved |= {c for c in CATS if (cfg.get("answers") or {}).get(c)}
+    if cfg.get("skip_updates") and "update" not in flags:
+        # skip-snapshot-updates-for-now: updates are hidden (not shown, not offered) unless update is given as a flag
+        approved.discard("update")
     return "ok", approved
 
 
@@ -167,6 +170,8 @@ def lattice():
             out.append({"project": proj, "shortcut": "sc", "shortcuts": {"sc": a}, "envvar": other})
             out.append({"project": proj, "envvar": "report," + fl, "default_flags": ["short-report"]})
             out.append({"project": proj, "envvar": "short-report," + fl})
+        for fl in ("review", "report,update", "review,update", "update", "report", "create,fix,trim"):
+            out.append({"project": proj, "cli": fl, "skip_updates": True, "answers": {c: True for c in CATS}})
         out.append({"project": proj, "shortcut": "fix"})
         out.append({"project": proj, "shortcut": "review", "answers": {"create": True}})
         out.append({"project": proj, "tty": True, "answers": {"create": True, "fix": True}})
@@ -228,6 +233,8 @@ def random_config(rng, project):
             cfg["envvar"] = ",".join(other)
     if "review" in fl or cfg.get("tty"):
         cfg["answers"] = {c: rng.random() < 0.5 for c in CATS}
+    if rng.random() < 0.12:
+        cfg["skip_updates"] = True
     r = rng.random()
     if r < 0.12:
         cfg["ci"] = rng.choice(CI_VARS)
@@ -275,6 +282,8 @@ def build(case):
         tool["default-flags"] = cfg["default_flags"]
     if cfg.get("default_flags_tui") is not None:
         tool["default-flags-tui"] = cfg["default_flags_tui"]
+    if cfg.get("skip_updates"):
+        tool["skip-snapshot-updates-for-now"] = True
     py = ""
     if tool:
         py += sim.pyproject_for(tool=tool)
@@ -317,7 +326,8 @@ def has_module_level_snapshot(src):
                 continue
             if isinstance(n, ast.Call) and isinstance(n.func, ast.Name) and n.func.id == "snapshot":
                 # inside a lambda body it is not evaluated at import
-                return not any(isinstance(p, ast.Lambda) and n in ast.walk(p) for p in ast.walk(node))
+                if not any(isinstance(p, ast.Lambda) and n in ast.walk(p) for p in ast.walk(node)):
+                    return True
     return False
 
 
@@ -393,7 +403,7 @@ def execute(case, ctx):
         rfiles, rspec = build({"config": {"project": cfg.get("project"), "cli": ",".join(["review"] + sorted(by_flag)) if review_mode else ",".join(sorted(approved)),
                                           "answers": {c: True for c in approved - by_flag} if review_mode else None,
                                           "default_flags": cfg.get("default_flags"), "default_flags_tui": cfg.get("default_flags_tui"),
-                                          "shortcuts": cfg.get("shortcuts")}, "program": case.get("program")})
+                                          "shortcuts": cfg.get("shortcuts"), "skip_updates": cfg.get("skip_updates")}, "program": case.get("program")})
         rnew, rres = sim.run_session(ctx, "plugin", rfiles, rspec, timeout=90)
         if not sim.session_completed("plugin", rres):
             out["discards"]["reference-session-did-not-complete(C18)"] = 1
